@@ -190,11 +190,71 @@ def leftover(fd, send):
     return list(out), seen
 
 
+def apply_attrs(base, a):
+    """the attribute vector `base` with the flags / control characters of the case's
+    attribute set `a` (echo, icanon, isig, opost, vmin, vtime).  Without ISIG the input side is
+    made raw the way tty.setraw / cfmakeraw does it (no CR/NL translation, no flow control,
+    no IEXTEN)."""
+    new = list(base)
+    new[6] = list(base[6])
+
+    def flag(idx, bit, on):
+        new[idx] = (new[idx] | bit) if on else (new[idx] & ~bit)
+
+    flag(3, termios.ECHO, a["echo"])
+    flag(3, termios.ICANON, a["icanon"])
+    flag(3, termios.ISIG, a["isig"])
+    flag(1, termios.OPOST, a["opost"])
+    if not a["isig"]:
+        new[0] &= ~(termios.BRKINT | termios.ICRNL | termios.INPCK | termios.ISTRIP | termios.IXON)
+        new[3] &= ~termios.IEXTEN
+    new[6][termios.VMIN] = a["vmin"]
+    new[6][termios.VTIME] = a["vtime"]
+    return new
+
+
+def unread_count(fd):
+    buf = array.array("i", [0])
+    fcntl.ioctl(fd, termios.FIONREAD, buf)
+    return buf[0]
+
+
+def enter_initial_state(fd, attr0, init, send):
+    """Puts the terminal into the case's INITIAL STATE: attribute set `init["attrs"]` with the
+    bytes `init["typeahead"]` sitting unread in its input queue.  -> (attributes met, ok)
+
+    Deterministic: the type-ahead is written by the terminal side while the tty is in a
+    staging mode (the target mode without ICANON / ECHO, so that nothing is echoed and the
+    kernel counts every byte); only when FIONREAD says that every byte has reached the line
+    discipline's queue is the target attribute set applied, with TCSANOW (which keeps the
+    queue)."""
+    target = apply_attrs(attr0, init["attrs"])
+    data = bytes(init.get("typeahead", ()))
+    ok = True
+    if data:
+        stage = list(target)
+        stage[6] = list(target[6])
+        stage[3] &= ~(termios.ICANON | termios.ECHO)
+        stage[6][termios.VMIN] = 0
+        stage[6][termios.VTIME] = 0
+        termios.tcsetattr(fd, termios.TCSAFLUSH, stage)
+        send({"staged": True})
+        deadline = time.monotonic() + 15.0
+        while unread_count(fd) < len(data) and time.monotonic() < deadline:
+            time.sleep(0.0005)
+        ok = unread_count(fd) == len(data)
+        termios.tcsetattr(fd, termios.TCSANOW, target)
+    else:
+        termios.tcsetattr(fd, termios.TCSAFLUSH, target)
+    return termios.tcgetattr(fd), ok
+
+
 def pty_main():
     cmd_f = os.fdopen(int(sys.argv[2]), "r")
     res_f = os.fdopen(int(sys.argv[3]), "w")
     fd = utils._tty_fd
     attr0 = termios.tcgetattr(fd)
+    met = attr0  # the attribute set the current case's call met
 
     # pass-through time stamp of every request written (the reference point of the
     # terminal side's "was my reply really timely" check); nothing else is touched
@@ -219,17 +279,22 @@ def pty_main():
         if cmd["op"] == "leftover":
             attr = termios.tcgetattr(fd)
             lo, seen = leftover(fd, send)
-            send({"leftover": lo, "sentinel_seen": seen, "attr_restored": attr == attr0})
+            send({"leftover": lo, "sentinel_seen": seen, "attr_restored": attr == met})
+            termios.tcsetattr(fd, termios.TCSANOW, attr0)
             termios.tcflush(fd, termios.TCIFLUSH)
+            met = attr0
             continue
         reset_library(cmd)
-        termios.tcflush(fd, termios.TCIFLUSH)
+        termios.tcsetattr(fd, termios.TCSAFLUSH, attr0)
+        met, staged_ok = attr0, True
+        if cmd.get("init"):
+            met, staged_ok = enter_initial_state(fd, attr0, cmd["init"], send)
         size = list(os.get_terminal_size(fd))
         del writes[:]
         t0 = time.monotonic()
         res = call(cmd["op"], cmd)
         t1 = time.monotonic()
-        res.update(t0=t0, t1=t1, size=size, writes=list(writes))
+        res.update(t0=t0, t1=t1, size=size, writes=list(writes), staged_ok=staged_ok)
         send(res)
 
 
